@@ -501,6 +501,54 @@ func monC03(c *drv.Ctx) {
 // with a fatal stack overflow (the worker crashes; the driver reports the case from the sidecar),
 // bounded recursion returns an error within microseconds.
 func c03DeepRecursion(c *drv.Ctx) {
+	// inputs in a local array of a goroutine whose stack has to grow (is moved) while the decoder recurses:
+	// a bound kept as an integer address goes stale there, which no heap or mapped input can show
+	c.Stage("stack-resident-input", c.Pick(2400, 24000), false, func(cs *drv.Case) {
+		r := cs.R
+		pad := int(cs.Idx % 300)
+		depth := 20 + r.Intn(44)
+		var nested []byte
+		var t byte
+		if r.Intn(2) == 0 {
+			t = []byte{ref.STRUCT, ref.MAP, ref.SET, ref.LIST}[r.Intn(4)]
+			nested = gen.Nested(t, depth, r.Intn(3))
+		} else {
+			nested, t = gen.NestedPath(gen.NestPaths[r.Intn(len(gen.NestPaths))], depth, r.Intn(2) == 0)
+		}
+		which := r.Intn(4) // 0..2: a FastRead struct with the nested value as an unknown field; 3: Binary.Skip
+		in := nested
+		if which < 3 {
+			in = append(ref.EncFieldBegin(nil, t, 100+int16(r.Intn(100))), nested...)
+			in = append(in, 0)
+		}
+		if len(in) > 1024 {
+			return
+		}
+		if r.Intn(3) > 0 {
+			in = in[:len(in)-1-r.Intn(minInt(len(in)-1, 60))]
+		}
+		var o stackSkipResult
+		name := "Binary.Skip"
+		if which == 3 {
+			o = stackSkip(in, t, pad)
+		} else {
+			name = []string{"Base.FastRead", "BaseResp.FastRead", "ApplicationException.FastRead"}[which]
+			o = stackFastRead(in, which, pad)
+		}
+		cs.Desc = M{"entry": name, "pad_frames": pad, "depth": depth, "input_hex": hexOf(in)}
+		if o.onStack {
+			cs.C.Obs("inputs on a goroutine stack", 1)
+		}
+		det := M{"entry": name, "input_hex": hexOf(in), "input_len": len(in), "pad_frames": pad, "observed_n": o.n, "observed_err": errString(o.err), "on_stack": o.onStack}
+		if o.panic != nil {
+			det["panic"] = fmt.Sprint(o.panic)
+			cs.Fail("decoder-panic", M{"entry": name, "placement": "stack"}, det)
+		} else if o.err == nil && o.n > len(in) {
+			cs.Fail("decoder-over-report", M{"entry": name, "placement": "stack"}, det)
+		}
+		cs.Count(true, "stack", which, pad, in)
+	})
+
 	c.Stage("deep-recursion", 8, true, func(cs *drv.Case) {
 		old := debug.SetMaxStack(64 << 20)
 		defer debug.SetMaxStack(old)
